@@ -313,4 +313,32 @@ FUNCTIONS = [
         lean_sig='(min_calls : Nat) : Bool',
         expr_rules=[(r'^sequence_handler\.get_min_calls\(\)$', 'min_calls')],
     ),
+
+    # ---- printing -------------------------------------------------------------------------------------------------
+    dict(
+        name='hexdump', cxx='trompeloeil::hexdump', file=MOCK,
+        header=r'inline void hexdump\(const void\* begin, size_t size, std::ostream& os\)',
+        lean_sig='(bytes : List Nat) (size : Nat) : List HTok',
+        pre=[(r'std::for_each\(bytes\.begin\(\), bytes\.end\(\),\s*\[&os, &byte_number\]\(unsigned byte\)\s*\{', 'for (auto byte : bytes) {'),
+             (r'\}\s*\)\s*;', '}'),
+             (r'mini_span<uint8_t const> bytes\(static_cast<uint8_t const\*>\(begin\), size\);', '')],
+        prologue=['let mut os_ : List HTok := []'], epilogue='return os_', void_result='os_',
+        vars={'bytes': 'bytes', 'size': 'size'},
+        local_types={'byte_number': 'Nat'},
+        decl_rules=[(r'^stream_sentry s = \{os\}$', 'os_ := os_ ++ [HTok.sentry]')],
+        stream_sinks=[(r'^os$', 'os_')],
+        tok_rules=[(r'^size$', 'HTok.num size'), (r'^byte$', 'HTok.byte byte'), (r'^("(?:\\.|[^"\\])*")$', r'HTok.lit \1'),
+                   (r"^'\\n'$", 'HTok.lit "\\n"'), (r"^std::setfill\('0'\)$", 'HTok.setfill0'), (r'^std::hex$', 'HTok.hex'),
+                   (r'^std::setw\(2\)$', 'HTok.setw2'), (r'^std::right$', 'HTok.right')],
+    ),
+    dict(
+        name='stream_sentry_dtor', cxx='stream_sentry::~stream_sentry', file=MOCK,
+        header=r'~stream_sentry\(\)',
+        lean_sig=': List Act',
+        acts=True, prologue=['let mut acts : List Act := []'], epilogue='return acts', void_result='acts',
+    ),
+    dict(
+        name='stream_sentry_ctor', cxx='stream_sentry::stream_sentry', file=MOCK, kind='init_list',
+        header=r'explicit\s+stream_sentry\(\s*std::ostream& os_\)',
+    ),
 ]
